@@ -129,14 +129,24 @@ def zsel(zname, J):
     return ['i', ['v', zname], {'l': J}]
 
 
-def gen_mask_calls(rng, d, n, groups=None):
+def gen_mask_calls(rng, d, n, groups=None, yshape=None):
     """dependency masks per entry built by adapt calls on the whole decision or on slices; each call names
     components of ONE random array (groups = [(lo, hi)] column ranges of the arrays)"""
     groups = groups or [(0, n)]
     mask = [[0] * n for _ in range(d)]
     calls = []
+    d2 = yshape[1] if yshape and len(yshape) == 2 else None
     for _ in range(rng.randint(0, 3)):
-        if d > 1 and rng.random() < 0.6:
+        if d2 is not None and rng.random() < 0.7:
+            i_ = rng.randrange(yshape[0])
+            if rng.random() < 0.5:
+                rows = list(range(i_ * d2, (i_ + 1) * d2))          # one row of the 2-D decision
+                tsel = i_
+            else:
+                j_ = rng.randrange(d2)
+                rows = [i_ * d2 + j_]                                # one entry
+                tsel = {'t': [i_, j_]}
+        elif d2 is None and d > 1 and rng.random() < 0.6:
             a = rng.randrange(d)
             b = rng.randint(a + 1, d)
             rows = list(range(a, b))
@@ -165,6 +175,10 @@ def gen_combo(rng, cfg, kind):
     n1 = n if (n == 1 or rng.random() < 0.55) else rng.randint(1, n - 1)       # z has n1 components, w the rest
     arrays = [['z', 0, n1]] + ([['w', n1, n]] if n1 < n else [])
     d = rng.randint(1, 3)
+    yshape = [d]
+    if rng.random() < 0.3:
+        yshape = rng.choice([[2, 2], [2, 3], [3, 2], [1, 3]])       # 2-D decision / decision rule
+        d = yshape[0] * yshape[1]
     integer_y = kind == 'dro' and rng.random() < 0.2
     r = rng.sample([0.5, 0.75, 1.0, 1.25, 1.5, 2.0, 2.5], S)
     praw = rng.sample([1, 2, 3, 4, 5, 6, 7], S)
@@ -198,6 +212,14 @@ def gen_combo(rng, cfg, kind):
             e = t_ if e is None else ['+', e, t_]
         return e
 
+    def yentry(i):
+        if len(yshape) == 1:
+            return ['i', ['v', 'y'], i]
+        r_, c_ = divmod(i, yshape[1])
+        if rng.random() < 0.4:
+            return ['i', ['T', ['v', 'y']], {'t': [c_, r_]}]           # the same entry through the transpose
+        return ['i', ['v', 'y'], {'t': [r_, c_]}]
+
     def box_set(rad):
         st_ = []
         for an, lo, hi in arrays:
@@ -210,7 +232,7 @@ def gen_combo(rng, cfg, kind):
                 st_ += [['<=', ['norm', ['v', an], 'inf'], ['c', rad]]]
         return st_
     if kind == 'dro':
-        s_y = add({'op': 'dvar', 'id': 'y', 'm': 'm', 'shape': [d], 'vtype': 'I' if integer_y else 'C'}, [])
+        s_y = add({'op': 'dvar', 'id': 'y', 'm': 'm', 'shape': yshape, 'vtype': 'I' if integer_y else 'C'}, [])
         s_t = add({'op': 'dvar', 'id': 't', 'm': 'm', 'shape': [d]}, [])
         s_f = add({'op': 'amb', 'id': 'F', 'm': 'm'}, [])
         s_supp = []
@@ -220,7 +242,7 @@ def gen_combo(rng, cfg, kind):
             s_supp.append(add({'op': 'supp', 'amb': 'F', 'scen': sc, 'set': st}, [s_f] + s_zs))
         s_p = add({'op': 'prob', 'amb': 'F', 'set': [['==', ['v', 'm.p'], ['c', p]]]}, [s_f])
     else:
-        s_y = add({'op': 'ldr', 'id': 'y', 'm': 'm', 'shape': [d]}, [])
+        s_y = add({'op': 'ldr', 'id': 'y', 'm': 'm', 'shape': yshape}, [])
         s_t = add({'op': 'dvar', 'id': 't', 'm': 'm', 'shape': [d]}, [])
 
     # adaptation histories
@@ -237,7 +259,7 @@ def gen_combo(rng, cfg, kind):
     if integer_y:
         mask, mcalls = [[0] * n for _ in range(d)], []
     else:
-        mask, mcalls = gen_mask_calls(rng, d, n, [(lo, hi) for _, lo, hi in arrays])
+        mask, mcalls = gen_mask_calls(rng, d, n, [(lo, hi) for _, lo, hi in arrays], yshape)
     prev = None
     for tsel, J in mcalls:
         tgt = ['v', 'y'] if tsel is None else ['i', ['v', 'y'], tsel]
@@ -251,12 +273,12 @@ def gen_combo(rng, cfg, kind):
     cons_ids = []
     for i in range(d):
         ci = lin_c(c[i])
-        yi = ['i', ['v', 'y'], i]
+        yi = yentry(i)
         ti = ['i', ['v', 't'], i]
         # every declaration precedes the first expression (a decision declared after an expression was built
         # is a build-history hazard that belongs to C09 / M-HIST, not to this machine)
         add({'op': 'cons', 'id': 'cy%d' % i, 'e': ['>=', yi, ci]}, [s_y, s_t] + s_zs + s_ad, role='cons')
-        add({'op': 'cons', 'id': 'ct%d' % i, 'e': ['>=', ti, ['-', yi, lin_c(c[i])]]}, [s_y, s_t] + s_zs + s_ad, role='cons')
+        add({'op': 'cons', 'id': 'ct%d' % i, 'e': ['>=', ti, ['-', yentry(i), lin_c(c[i])]]}, [s_y, s_t] + s_zs + s_ad, role='cons')
         cons_ids += ['cy%d' % i, 'ct%d' % i]
     dep_all = [s['sid'] for s in steps]
     if kind == 'dro':
@@ -300,7 +322,7 @@ def gen_combo(rng, cfg, kind):
               'py': py.partition(), 'pt': pt.partition(), 'mask': mask}
     pool = ['def', 'ort', 'grb'] if integer_y else ['def', 'lpg', 'ort', 'grb', 'eco']
     return {'kind': 'combo-' + kind, 'ops': ops, 'steps': steps, 'model_op': ops[0], 'expect': expect, 'labels': labels, 'intlab': intlab, 'S': S,
-            'n': n, 'arrays': arrays, 'd': d, 'c': c, 'r': r, 'p': p, 'integer_y': integer_y, 'pool': pool, 'sense_max': sense_max}
+            'n': n, 'arrays': arrays, 'd': d, 'yshape': yshape, 'c': c, 'r': r, 'p': p, 'integer_y': integer_y, 'pool': pool, 'sense_max': sense_max}
 
 
 def gen_mix(rng, cfg):
@@ -548,6 +570,13 @@ def gen_cvx_atoms(rng, d):
     return out
 
 
+def _yent(y, i, case):
+    ys = case.get('yshape') or [case['d']]
+    if len(ys) == 1:
+        return y[i]
+    return y[divmod(i, ys[1])]
+
+
 def _call_rows(obj, S):
     """per-scenario values through expression evaluation obj() (does not use the labelling code of get())"""
     return _series_to_rows(obj(), S)
@@ -683,6 +712,21 @@ def _check_solved(case, it, w, viol, stats, probe, props):
                     viol('C13', 'nonanticipativity', '%s() differs inside declared event %s: %s'
                          % (nm, [labels[s] for s in e], vals))
                     return
+        # the combined expression is adaptive to the common refinement: (x1+x2)() gives per-scenario values
+        stats['checks_c13'] += 1
+        try:
+            c1, _ = _call_rows(it.env['x1'], S)
+            c2, _ = _call_rows(it.env['x2'], S)
+            both = (it.env['x1'] + it.env['x2'])()
+            cb, _ = _series_to_rows(both, S)
+            for s in range(S):
+                if abs(float(cb[s][0]) - float(c1[s][0]) - float(c2[s][0])) > 1e-7:
+                    viol('C13', 'mix-expression-refinement', '(x1 + x2)() = %.9g at label %r but x1() + x2() = %.9g there '
+                         '(partitions %s / %s)' % (cb[s][0], labels[s], c1[s][0] + c2[s][0], ex['p1'], ex['p2']))
+                    return
+        except Exception as e:
+            viol('C12', 'readback-raises', '(x1 + x2)() raised %r' % (e,), exc=type(e).__name__)
+            return
         # (x1+x2)() per scenario must satisfy x1+x2 >= u_s and reproduce the objective
         stats['checks_c12'] += 1
         try:
@@ -712,6 +756,28 @@ def _check_solved(case, it, w, viol, stats, probe, props):
         probe('y_event_partition')
     if any(0 < sum(r_) for r_ in ex['mask']):
         probe('affine_mask')
+    # model.get() in the user's sense equals the objective expression at the values read back through t()
+    stats['checks_c12'] += 1
+    try:
+        trow, _ = _call_rows(it.env['t'], S)
+        wts_ = None
+        for o_ in case['ops']:
+            if o_['op'] == 'obj':
+                e_ = o_['e']
+                while e_[0] in ('neg', 'E'):
+                    e_ = e_[1]
+                wts_ = e_[1][1]
+        pr_ = case['p'] if case['kind'] == 'combo-dro' else [1.0]
+        uo = sum(pr_[s] * sum(wts_[i] * float(trow[s][i]) for i in range(d)) for s in range(S))
+        if case.get('sense_max'):
+            uo = -uo
+        if not close(out['obj'], uo, max(tol, 1e-5)):
+            viol('C12', 'get-vs-readback', 'model.get() = %.9g but the objective expression evaluated at the values of t() is %.9g '
+                 '(%s model)' % (out['obj'], uo, 'maximisation' if case.get('sense_max') else 'minimisation'))
+            return
+    except Exception as e:
+        viol('C12', 'readback-raises', 't() raised %r after an optimal solve' % (e,), exc=type(e).__name__)
+        return
     if not close(out['obj'], ex['opt'], tol):
         viol('C13', 'combo-optimum', 'optimum %.9g, closed form for declared partitions y:%s t:%s mask %s is %.9g'
              % (out['obj'], ex['py'], ex['pt'], ex['mask'], ex['opt']))
@@ -798,9 +864,13 @@ def _check_solved(case, it, w, viol, stats, probe, props):
                     g = mats[s][i, j]
                     e_ = ex['Y'][i][j]
                     if e_ is None:
+                        if not np.isnan(g) and abs(g) > 1e-9:
+                            viol('C13', 'undeclared-dependence', 'y[%d] has coefficient %.6g on random component %d (label %r) '
+                                 'although no dependence was declared (mask %s)' % (i, g, j, labels[s], ex['mask']))
+                            return
                         if not np.isnan(g):
-                            viol('C13', 'undeclared-dependence', 'y[%d] has coefficient %.6g on z[%d] (label %r) although no '
-                                 'dependence was declared (mask %s)' % (i, g, j, labels[s], ex['mask']))
+                            viol('C12', 'nan-mask', 'y.get(.)[label %r][%d,%d] = %r where no dependence was declared (NaN expected, '
+                                 'mask %s)' % (labels[s], i, j, g, ex['mask']))
                             return
                     else:
                         if np.isnan(g):
@@ -883,7 +953,7 @@ def _check_solved(case, it, w, viol, stats, probe, props):
     zobj = it.env['z']
     try:
         for i in range(d):
-            got = (2.0 * it.env['y'][i] + 1.0)()
+            got = (2.0 * _yent(it.env['y'], i, case) + 1.0)()
             rows_e, _ = _series_to_rows(got, S)
             for s in range(S):
                 want = 2.0 * float(rows_c[s][i]) + 1.0
@@ -896,7 +966,7 @@ def _check_solved(case, it, w, viol, stats, probe, props):
         return
     try:
         for i in range(d):
-            expr = it.env['y'][i]
+            expr = _yent(it.env['y'], i, case)
             for an, lo, hi in arrays_:
                 expr = expr - np.array(case['c'][i][lo:hi]) @ it.env[an]
             got = expr(zobj.assign(zv[:n1_]))
